@@ -9,7 +9,7 @@
    [anc_steps s fs k x a]: in exactly k steps.  [acyclic_source]: content
    addressing (a predecessor embeds its successor's digest). *)
 From Oras Require Import Base.Prelude Model.FindRoots Proofs.FindRoots.
-From Oras Require Import Model.CopySpec Proofs.CopySpec Proofs.FindRootsCopy.
+From Oras Require Import Model.CopySpec Proofs.CopySpec Proofs.FindRootsCopy Proofs.FindRootsMem.
 Local Open Scope nat_scope.
 
 (* Depth <= 0 (any filter stack, in particular none: find_preds s [] = s_preds s):
@@ -160,6 +160,42 @@ Theorem C03_depth_bounds_by_content :
     (exists r, In r roots /\ anc_spec s fs (d_id node) (d_id r)).
 Proof. exact find_roots_depth_by_content. Qed.
 Print Assumptions C03_depth_bounds_by_content.
+
+(* Sources backed by graph.Memory (memory, OCI layout, file store): composed with C07's theorem
+   (Predecessors is exact after every history of Index / Remove / IndexAll), the walk is a walk
+   over the LINKS of the stored content.  [backed_by s gm]: the store serves graph.Memory's
+   predecessor sets; [followed_links]: y is stored, its content links to x (subject, config, layer,
+   manifest, blob) and its manifest satisfies the filters; [content_acyclic]: content addressing.
+   No source-level acyclicity or inverse-link hypothesis is left. *)
+Theorem C03_roots_unlimited_memory_backed :
+  forall (ct : GM.amap) (fuelm : nat) (ops : list GM.op) (s : source) (fs : list filter)
+         (rank : GM.node -> nat) (limit : Z) (node : desc) (fuel : nat) (roots : list desc),
+    let gm := GM.s_g (fst (GM.run ct fuelm GM.init_state ops)) in
+    let R := followed_links (GM.ctab ct) gm s fs in
+    let up a c := exists k, rpath R k a c in
+    backed_by s gm -> all_served_ok s -> content_acyclic (GM.ctab ct) rank -> (limit <= 0)%Z ->
+    find_roots fuel s fs limit node = Some roots ->
+    (forall r, In r roots -> up (d_id node) (d_id r) /\ forall y, ~ R (d_id r) y) /\
+    (forall a, up (d_id node) a -> (forall y, ~ R a y) -> In a (map d_id roots)) /\
+    (forall a, up (d_id node) a -> exists r, In r roots /\ up a (d_id r)).
+Proof. exact roots_unlimited_memory_backed. Qed.
+Print Assumptions C03_roots_unlimited_memory_backed.
+
+Theorem C03_memory_backed_inverse_link :
+  forall (ct : GM.amap) (fuelm : nat) (ops : list GM.op) (s : source),
+    let gm := GM.s_g (fst (GM.run ct fuelm GM.init_state ops)) in
+    backed_by s gm ->
+    forall x p, In p (s_preds s x) -> In (N.of_nat x) (GM.ctab ct (N.of_nat (d_id p))).
+Proof. exact backed_pred_is_inverse_link. Qed.
+Print Assumptions C03_memory_backed_inverse_link.
+
+Example C03_ex_memory_backed :
+  backed_by src_mem_two (GM.s_g (fst (GM.run ct_two 10 GM.init_state ops_two))) /\
+  all_served_ok src_mem_two /\
+  content_acyclic (GM.ctab ct_two) N.to_nat /\
+  find_roots (fuel_for src_mem_two 3) src_mem_two [] 0%Z (mkDesc 0 [] None)
+    = Some [mkDesc 2 [] None; mkDesc 1 [] None].
+Proof. exact ex_backed. Qed.
 
 (* The pinned source (before the fix: commit c24ca78 of the repository branch)
    violated it: fetchArtifactType answered with the config media type of an image
